@@ -2,7 +2,7 @@
 # usage: seedrun.sh <ID> <seed-dir> [tier] — confirm a seeded change in a scratch worktree, store it
 # under /verif/seeded/<name>/, run the property's check against it (applied to /repo, undone afterwards).
 set -u
-ID=$1; SD=$2; TIER=${3:-quick}; NAME=$(basename $SD | sed "s/^seed2-\(.*\)/\1-r2/; s/^seed3-\(.*\)/\1-r3/; s/^seed4-\(.*\)/\1-r4/; s/^seed-//")
+ID=$1; SD=$2; TIER=${3:-quick}; NAME=$(basename $SD | sed "s/^seed2-\(.*\)/\1-r2/; s/^seed3-\(.*\)/\1-r3/; s/^seed4-\(.*\)/\1-r4/; s/^seed5-\(.*\)/\1-r5/; s/^seed-//")
 export GOFLAGS=-mod=mod GOPROXY=off GOSUMDB=off GOTOOLCHAIN=local
 WT=/tmp/confirm-$NAME
 git -C /repo worktree remove --force $WT >/dev/null 2>&1
@@ -32,9 +32,10 @@ PY
 TEST=$(grep -o 'func Test[A-Za-z0-9_]*' $SD/demo_test.go | head -1 | awk '{print $2}')
 echo "== $NAME: demo pkg dir=$DIR test=$TEST"
 cp $SD/demo_test.go $WT/$DIR/zz_seed_demo_test.go
-(cd $WT && go test -vet=off -count=1 -run "^$TEST\$" ./$DIR >/tmp/confirm-$NAME.unpatched 2>&1); R0=$?
+RACEFLAG=${SEEDRUN_RACE:+-race}
+(cd $WT && go test $RACEFLAG -vet=off -count=1 -run "^$TEST\$" ./$DIR >/tmp/confirm-$NAME.unpatched 2>&1); R0=$?
 (cd $WT && git apply $SD/patch.diff) || { echo "patch does not apply"; exit 3; }
-(cd $WT && go test -vet=off -count=1 -run "^$TEST\$" ./$DIR >/tmp/confirm-$NAME.patched 2>&1); R1=$?
+(cd $WT && go test $RACEFLAG -vet=off -count=1 -run "^$TEST\$" ./$DIR >/tmp/confirm-$NAME.patched 2>&1); R1=$?
 rm $WT/$DIR/zz_seed_demo_test.go
 (cd $WT && go build ./... && go test -vet=off -count=1 ./... >/tmp/confirm-$NAME.suite 2>&1); R2=$?
 echo "demo unpatched rc=$R0 (want 0)  demo patched rc=$R1 (want !=0)  suite with patch rc=$R2 (want 0)"
